@@ -29,9 +29,10 @@ var c14ReadKinds = []string{"observe", "foreach-stop", "toproto", "encodeproto",
 type popSk struct {
 	u            *skUT
 	last         obs.SketchObs
-	copyPartner  int  // index of the object it was copied from / to, -1
-	mutAfter     bool // mutated after the copy
-	readBuffered bool // a read-only action happened while a paginated store held buffered entries
+	rp, rn       []float64 // the rank probes last was taken with (the shared budget's quantum changes when any object is reweighted)
+	copyPartner  int       // index of the object it was copied from / to, -1
+	mutAfter     bool      // mutated after the copy
+	readBuffered bool      // a read-only action happened while a paginated store held buffered entries
 }
 
 func TestC14_Sketch(t *testing.T) {
@@ -52,18 +53,20 @@ func TestC14_Sketch(t *testing.T) {
 			}
 			u := newSkUT(c, d, bud, cl)
 			cl.label("kind:" + c.pos.Name)
-			return &popSk{u: u, last: u.fullObs(u.s, u.k, c), copyPartner: -1}
+			p := &popSk{u: u, copyPartner: -1}
+			p.observe()
+			return p
 		}
 		pop := []*popSk{newObj(t)}
 		g := &kopGen{dom: d, prof: prof, bud: bud, kinds: c14MutKinds, collapsing: true}
 		nontrivialCopy, nontrivialBuffered := false, false
-		refresh := func(i int) { p := pop[i]; p.last = p.u.fullObs(p.u.s, p.u.k, p.u.cfg) }
+		refresh := func(i int) { pop[i].observe() }
 		checkOthers := func(t *rapid.T, except int, what string) {
 			for j, p := range pop {
 				if j == except {
 					continue
 				}
-				now := p.u.fullObs(p.u.s, p.u.k, p.u.cfg)
+				now := obs.Sketch(p.u.s, obs.DefaultQs, p.rp, p.rn)
 				if dd := obs.DiffSketch(now, p.last, p.u.diffOpts()); dd != "" {
 					t.Fatalf("C14: %s changed object %d (%s), which was not its target: %s", what, j, p.u.cfg, dd)
 				}
@@ -138,8 +141,8 @@ func TestC14_Sketch(t *testing.T) {
 					u.s.Encode(&b, rapid.Bool().Draw(t, "omit"))
 				case "copy":
 					cp := &skUT{cfg: u.cfg, s: u.s.Copy(), k: u.k.copy(), bud: bud, cl: cl, kinds: map[string]bool{}, inex: u.inex, safeV: u.safeV, lossy: u.lossy}
-					np := &popSk{u: cp, copyPartner: i}
-					np.last = cp.fullObs(cp.s, cp.k, cp.cfg)
+					np := &popSk{u: cp, copyPartner: i, rp: p.rp, rn: p.rn}
+					np.last = obs.Sketch(cp.s, obs.DefaultQs, p.rp, p.rn)
 					if dd := obs.DiffSketch(np.last, p.last, u.diffOpts()); dd != "" {
 						t.Fatalf("C14: the copy of object %d (%s) does not answer like its original: %s", i, u.cfg, dd)
 					}
@@ -189,7 +192,14 @@ func TestC14_Sketch(t *testing.T) {
 					}
 					_, m2 := buildMapping(t, 1e-2, 0.3)
 					// only the receiver's purity is judged; the result (non-dyadic weights) is discarded
-					_ = u.s.ChangeMapping(m2, gen.StoreKind{Name: "sparse"}.Provider(), rapid.SampledFrom([]float64{1, 2, 0.5, 1.37}).Draw(t, "scale"))
+					res := u.s.ChangeMapping(m2, gen.StoreKind{Name: "sparse"}.Provider(), rapid.SampledFrom([]float64{1, 1, 2, 0.5, 1.37}).Draw(t, "scale"))
+					// the result is a new sketch: operating on it must not affect the receiver (checked below for every live object)
+					_ = res.AddWithCount(u.safeV, 3)
+					_ = res.Add(-u.safeV)
+					if !res.IsEmpty() {
+						_ = res.Reweight(2)
+					}
+					res.Clear()
 				case "store-reads":
 					for _, st := range storesOf(u.s) {
 						for range st.Bins() {
@@ -219,6 +229,14 @@ func TestC14_Sketch(t *testing.T) {
 		})
 		cl.done(nontrivialCopy || nontrivialBuffered)
 	})
+}
+
+// observe records the object's current observation together with the rank probes it was taken with.
+func (p *popSk) observe() {
+	u := p.u
+	ep, en := u.k.expectPos(u.cfg), u.k.expectNeg(u.cfg)
+	p.rp, p.rn = ep.ProbeRanks(u.bud.HalfQuantum(), 4), en.ProbeRanks(u.bud.HalfQuantum(), 4)
+	p.last = obs.Sketch(u.s, obs.DefaultQs, p.rp, p.rn)
 }
 
 func storesOf(s obs.SK) []store.Store { return []store.Store{s.Pos(), s.Neg()} }
